@@ -185,3 +185,148 @@ theorem dropLoop_conserve (c : Color) (cap : Bool) (s : State) (x y : Int) (d : 
           omega
 
 end C01
+
+namespace C01
+open Spec Tak
+
+/-- pieces of colour `c`, class `cap`, on the board and in reserve -/
+def total (c : Color) (cap : Bool) (s : State) : Nat := cnt c cap s.squares + s.reserve c cap
+
+theorem reserve_frame (s : State) (sq : List Square) (p : Int) (c : Color) (cap : Bool) :
+    ({ s with squares := sq, ply := p } : State).reserve c cap = s.reserve c cap := by
+  cases c <;> cases cap <;> rfl
+
+theorem idx_decReserve (s : State) (c : Color) (cap : Bool) (x y : Int) : (s.decReserve c cap).idx x y = s.idx x y := by
+  unfold State.idx; rw [(decReserve_frame s c cap).1]
+
+theorem reserve_decReserve (s : State) (c c' : Color) (cap cap' : Bool) (hc' : c' ≠ Color.none)
+    (hpos : s.reserve c' cap' ≠ 0) :
+    (s.decReserve c' cap').reserve c cap + (if c' = c ∧ cap' = cap then 1 else 0) = s.reserve c cap := by
+  cases c <;> cases c' <;> cases cap <;> cases cap' <;> simp_all [State.decReserve, State.reserve] <;> omega
+
+/-- placing one piece of colour `col` from the reserve onto an empty square conserves every total -/
+theorem place_conserves (s : State) (x y : Int) (col : Color) (k : Kind) (c : Color) (cap : Bool)
+    (hcol : col ≠ Color.none) (hi : s.idx x y < s.squares.length)
+    (hempty : s.squares.getD (s.idx x y) [] = []) (hres : s.reserve col (k == Kind.capstone) ≠ 0) (p : Int) :
+    total c cap { ((s.decReserve col (k == Kind.capstone)).setAt x y [⟨col, k⟩]) with ply := p } = total c cap s := by
+  have hset := cnt_set c cap s.squares (s.idx x y) [⟨col, k⟩] hi
+  have hr := reserve_decReserve s c col cap (k == Kind.capstone) hcol hres
+  have hsq : (s.decReserve col (k == Kind.capstone)).squares = s.squares := (decReserve_frame s _ _).2.2.1
+  unfold total
+  simp only [State.setAt, hsq, idx_decReserve]
+  have hrf := reserve_frame (s.decReserve col (k == Kind.capstone))
+    (s.squares.set (s.idx x y) [⟨col, k⟩]) p c cap
+  simp only [hempty, List.countP_nil, List.countP_cons, cls] at hset
+  rw [hrf]
+  simp only [Bool.and_eq_true, beq_iff_eq] at hset
+  by_cases he : col = c ∧ (k == Kind.capstone) = cap
+  · rw [if_pos he] at hset hr
+    omega
+  · rw [if_neg he] at hset hr
+    omega
+
+end C01
+
+namespace C01
+open Spec Tak
+
+theorem toMove_ne_none (s : State) : s.toMove ≠ Color.none ∧ s.toMove.flip ≠ Color.none := by
+  unfold State.toMove; split <;> simp [Color.flip]
+
+/-- **no piece appears or disappears**: a legal move conserves, for each colour, the number of ordinary
+stones (flats + walls) and of capstones, counted over board + reserve -/
+theorem step_conserves (s : State) (m : Spec.Move) (s' : State) (c : Color) (cap : Bool)
+    (hl : s.squares.length = s.size * s.size) (h : step s m = some s') :
+    total c cap s' = total c cap s := by
+  cases m with
+  | invalid => simp [step] at h
+  | place x y k =>
+    simp only [step] at h
+    have hcol : (if s.ply < 2 then s.toMove.flip else s.toMove) ≠ Color.none := by
+      split
+      · exact (toMove_ne_none s).2
+      · exact (toMove_ne_none s).1
+    generalize (if s.ply < 2 then s.toMove.flip else s.toMove) = col at h hcol
+    split at h
+    · cases h
+    · rename_i hob
+      split at h
+      · cases h
+      · split at h
+        · cases h
+        · rename_i hemp
+          split at h
+          · cases h
+          · rename_i hres
+            cases h
+            have hob' : s.onBoard x y = true := by simpa using hob
+            have hi := idx_lt s x y hl hob'
+            have hempty : s.squares.getD (s.idx x y) [] = [] := by
+              have : (s.at x y).isEmpty = true := by simpa using hemp
+              rw [at_eq] at this
+              exact List.isEmpty_iff.mp this
+            have hres' : s.reserve col (k == Kind.capstone) ≠ 0 := by simpa using hres
+            exact place_conserves s x y col k c cap hcol hi hempty hres' _
+  | slide x y d drops =>
+    simp only [step] at h
+    split at h
+    · cases h
+    · split at h
+      · cases h
+      · rename_i hob
+        split at h
+        · cases h
+        · split at h
+          · cases h
+          · split at h
+            · cases h
+            · rename_i t rest hsq
+              split at h
+              · cases h
+              · split at h
+                · cases h
+                · rename_i s2 hs2
+                  cases h
+                  have hob' : s.onBoard x y = true := by simpa using hob
+                  have hi := idx_lt s x y hl hob'
+                  have hc := dropLoop_conserve c cap _ _ _ _ _ _ _ (by simpa [State.setAt] using hl) hs2
+                  have hfr := dropLoop_frame _ _ _ _ _ _ _ hs2
+                  have hset := cnt_set c cap s.squares (s.idx x y)
+                    (List.drop (List.foldl (· + ·) 0 drops) (s.at x y)) hi
+                  have htd := countP_take_drop (cls c cap) (s.at x y) (List.foldl (· + ·) 0 drops)
+                  rw [← at_eq] at hset
+                  obtain ⟨_, _, _, r1, r2, r3, r4, _⟩ := hfr
+                  have hres : total c cap { s2 with ply := s2.ply + 1 } = cnt c cap s2.squares + s.reserve c cap := by
+                    unfold total
+                    congr 1
+                    cases c <;> cases cap <;> simp only [State.reserve, State.setAt] at * <;>
+                      first | exact r1 | exact r2 | exact r3 | exact r4 | rfl
+                  rw [hres]
+                  unfold total
+                  simp only [State.setAt] at hc
+                  rw [hc]
+                  omega
+
+end C01
+
+namespace C01
+open Spec Tak
+
+/-- non-vacuity: a 3×3 game with two placements, a flat on a flat, and a two-piece slide all pass through `step` -/
+def s0 : State := { size := 3, blackWinsTies := false, squares := List.replicate 9 [], ply := 0,
+                    whiteStones := 10, whiteCaps := 0, blackStones := 10, blackCaps := 0 }
+
+def play (s : State) : List Spec.Move → Option State
+  | [] => some s
+  | m :: ms => (step s m).bind (fun s' => play s' ms)
+
+def demoLine : List Spec.Move :=
+  [.place 0 0 .flat, .place 2 2 .flat, .place 1 0 .flat, .place 1 1 .standing,
+   .slide 1 0 .left [1], .place 2 0 .flat, .slide 0 0 .up [1, 1]]
+
+example : (play s0 demoLine).isSome = true := by decide
+example : s0.squares.length = s0.size * s0.size := by decide
+example : ((play s0 demoLine).map (total Color.white false)) = some (total Color.white false s0) := by decide
+example : ((play s0 demoLine).map (·.ply)) = some 7 := by decide
+
+end C01
